@@ -338,6 +338,10 @@ class Z3Method(Method):
         assert cur_item.rule == "sorry", "introduction: id is not a gap"
         goal = cur_item.th.prop
 
+        # The facts may only depend on hypotheses of the goal: the goal line
+        # keeps its stated sequent.
+        assert all(set(th.hyps).issubset(set(cur_item.th.hyps)) for th in prev_ths), \
+            "Z3 method: a fact depends on a hypothesis the goal does not have"
         if check_z3:
             assert solve(Implies(*(assms + [goal]))), "Z3 method: not solved"
-        state.set_line(id, 'z3', args=goal, prevs=prevs)
+        state.set_line(id, 'z3', args=goal, prevs=prevs, th=cur_item.th)
